@@ -250,9 +250,12 @@ def _live_server():
 def live_case(draw):
     u = draw(urlgen.gemini_url())
     rest = u["url"].split("://", 1)[1]
-    tail = rest[rest.index("/"):] if "/" in rest else ("?" + u["query"] if u["query"] else "")
-    if "/" not in rest and u["query"]:
-        tail = "?" + u["query"]
+    # everything behind the authority, as spelled: the authority ends at the first '/' or '?' (a '/' inside the query of
+    # a URL with an empty path is not the start of the path)
+    import re as _re
+
+    m_ = _re.search(r"[/?]", rest)
+    tail = rest[m_.start():] if m_ else ""
     host = draw(st.sampled_from(["127.0.0.1", "localhost", "LOCALHOST", "127.0.0.1"]))
     return {"host": host, "tail": tail, "path": u["path"], "query": u["query"], "labels": u["labels"] + ["live"], "url": ""}
 
